@@ -65,3 +65,40 @@ def phiSample (flatValid : List Bool) (idx : List Nat) : Bool :=
   idx.all (fun i => flatValid.getD i false) && idx.eraseDups.length == idx.length
 
 end Lerax.Replay
+
+/-! ### `position` as the 32-bit signed counter the code actually carries
+
+`ReplayBuffer.position` is a `jnp` int32 scalar (x64 off, the library default):
+`position + 1` wraps in two's complement, `position % size` is the floored remainder
+(non-negative for `size > 0`), and `current_size = minimum(position, size)` is a signed
+comparison.  `Buf32` mirrors that; `LeraxProofs/C06Int32.lean` proves it coincides with the
+`Nat`-counter model `Buf` for every history shorter than `2^31` insertions, and exhibits what
+happens at the `2^31`-th insertion. -/
+namespace Lerax.Replay
+
+structure Buf32 (ρ : Type) where
+  cap : Nat
+  pos : BitVec 32
+  slots : List (Option ρ)
+
+def empty32 {ρ : Type} (cap : Nat) : Buf32 ρ :=
+  { cap := cap, pos := 0, slots := List.replicate cap none }
+
+/-- `idx = position % size` on int32 (floored remainder: sign of the divisor) -/
+def idx32 (pos : BitVec 32) (cap : Nat) : Nat := (pos.toInt % (cap : Int)).toNat
+
+def add32 {ρ : Type} (b : Buf32 ρ) (row : ρ) : Buf32 ρ :=
+  { b with pos := b.pos + 1, slots := b.slots.set (idx32 b.pos b.cap) (some row) }
+
+/-- `current_size = minimum(position, size)` (signed) -/
+def currentSize32 {ρ : Type} (b : Buf32 ρ) : Int := min b.pos.toInt (b.cap : Int)
+
+/-- `valid_mask = arange(size) < current_size` (signed comparison) -/
+def validMask32 {ρ : Type} (b : Buf32 ρ) : List Bool :=
+  (List.range b.cap).map (fun (j : Nat) => decide (Int.ofNat j < currentSize32 b))
+
+/-- forget the word size -/
+def abs32 {ρ : Type} (b : Buf32 ρ) : Buf ρ :=
+  { cap := b.cap, pos := b.pos.toNat, slots := b.slots }
+
+end Lerax.Replay
